@@ -68,6 +68,19 @@ def au_annotated(nann, ch=1, frames=80):
     return b".snd" + struct.pack(">IIIII", 24 + nann, len(data), 3, 8000, ch) + ann + data
 
 
+def big_chunk_files(n, frames=40):
+    """[WAV, AIFF] (16 bit mono) with an unknown chunk of n bytes in front of the audio"""
+    pay = bytes((i * 7 + 3) & 0xFF for i in range(n))
+    au = b"".join(struct.pack("<h", (i * 321) % 20000 - 10000) for i in range(frames))
+    body = b"WAVE" + _ck(b"fmt ", struct.pack("<HHIIHH", 1, 1, 8000, 16000, 2, 16), big=False) + _ck(b"zzzz", pay, big=False) + _ck(b"data", au, big=False)
+    wav = b"RIFF" + struct.pack("<I", len(body)) + body
+    aub = b"".join(struct.pack(">h", (i * 321) % 20000 - 10000) for i in range(frames))
+    comm = struct.pack(">hIh", 1, frames, 16) + b"\x40\x0b\xfa\x00\x00\x00\x00\x00\x00\x00"       # 8000 Hz as 80 bit extended
+    body = b"AIFF" + _ck(b"COMM", comm) + _ck(b"zzzz", pay) + _ck(b"SSND", struct.pack(">II", 0, 0) + aub)
+    aiff = b"FORM" + struct.pack(">I", len(body)) + body
+    return [wav, aiff]
+
+
 def crafted():
     """[(fmt, ch, bytes, dataoffset)]"""
     out = []
